@@ -36,7 +36,13 @@ Theorem c12_refines_list : forall (mva : Z -> Z -> Z) (mvc smv : Z -> Z) ops s,
 Proof. exact rv_refines_list. Qed.
 Print Assumptions c12_refines_list.
 
-(* ... and on two vectors sharing a resource with swap, copy-assignment and move-assignment *)
+(* ... and on two vectors with every whole-object operation, both objects staying in use afterwards: swap (member, ADL,
+   std::swap), copy / move assignment with equal and different allocators, plain and allocator-extended copy / move
+   construction (the destination name is re-used for the new object).  What the plain move constructor, the
+   allocator-extended one, move assignment and swap do is regenerated (move_ctor_swaps, move_xctor_assigns,
+   move_assign_swaps, swap_exchanges_all): a hand-written member-wise move or a swap that forgets a member re-opens
+   step2_post (hence c12_refines_list2 / c12_inv2) or breaks the translator.  A moved-from source is the empty, usable
+   vector std::vector leaves (spec_step2: []), without any clear() after the plain / same-allocator move construction. *)
 Theorem c12_refines_list2 : forall (mva : Z -> Z -> Z) (mvc smv : Z -> Z) ops a b,
   wf a -> wf b -> valid2 (abs a, abs b) ops = true ->
   (abs (fst (run2 mva mvc smv (a, b) ops)), abs (snd (run2 mva mvc smv (a, b) ops))) =
